@@ -16,6 +16,10 @@ CLAIMS["C06"] = ("partial, strong: shadow isolation of all update/undo calls dur
     "path-sensitive dataflow per is_resetting cell, straight-line content simulation of the swaps, lockset, interprocedural lock-order graph")
 CLAIMS["C05"] = ("partial, strong: byte-level provenance of both query PDUs against the RFC layout, the Cache Response verdict is consumed before any payload (all paths), full decision table of the session handler, End-of-Data session mismatch reaches no table update on any path, reset-vs-serial choice extracted from the state machine, write discipline of session/serial/request flag over the whole program; serial arithmetic does not exist in the code and user transports are opaque",
     "value-flow provenance of struct stores, path-sensitive effect counting with forked call results, FSM arm extraction, who-writes over all units")
+CLAIMS["C07"] = ("partial, strong: expiry check before every open (from the extracted state machine), timestamp write discipline (0 only with both tables purged on every path; non-zero only by the clock after a successful receive), decision table of the purge function incl. the direction and operands of the expiry comparison, stop purges both tables after the join, every purge names own table and own socket; real time is not decided",
+    "FSM arm extraction, region (dominance/post-dominance) coupling of stores and purges, decision table with forked clock result")
+CLAIMS["C13"] = ("partial, strong: every write of the negotiated version provably lowers it (dominating-guard reasoning per store), the three downgrade triggers with their conditions and continuations, first-PDU flag discipline, version check refuses foreign-version PDUs before the payload with report code 8, and every status comparison in the protocol code agrees with the callee's computed return set (hang-up downgrade live); End-of-Data formats are decided under C04",
+    "dominating-guard implication per store, decision cells on rtr_receive_pdu, interprocedural return-value sets (belief contradiction)")
 NA = {}
 def main():
     props = [json.loads(l) for l in open(os.path.join(HERE, "properties.jsonl"))]
